@@ -429,6 +429,102 @@ add('c17-benign-local-cache-dict', 'C17', 'benign', [(MATH, """def xgcd(*args):
     cache['r'] = _xgcd(np.gcd.reduce, args)
     return cache['r']""")])
 
+# ---------------------------------------------------------------- C10
+add('c10-if-solve-cycle-removed', 'C10', 'break', [(LOGIC, """        check_error=lambda cond, *a: get_error(cond)
+    ),
+    'solve_cycle': solve_cycle
+}""", """        check_error=lambda cond, *a: get_error(cond)
+    )
+}""")], expect='C10.lazy')
+add('c10-switch-gets-solve-cycle', 'C10', 'break', [(LOGIC, """        check_error=lambda first, *a: get_error(first),
+    )
+}""", """        check_error=lambda first, *a: get_error(first),
+    ),
+    'solve_cycle': solve_cycle
+}""")], expect='C10.lazy')
+add('c10-if-checks-all-args', 'C10', 'break', [(LOGIC, """        check_error=lambda cond, *a: get_error(cond)
+    ),""", """        check_error=get_error
+    ),""")], expect='C10.lazy')
+add('c10-ifs-guard-odd', 'C10', 'break', [(LOGIC, """    'solve_cycle': lambda *a: not any(a[::2])""", """    'solve_cycle': lambda *a: not any(a[1::2])""")], expect='C10.lazy')
+add('c10-solve-cycle-polarity', 'C10', 'break', [(LOGIC, """def solve_cycle(*args):
+    return not args[0]""", """def solve_cycle(*args):
+    return args[0]""")], expect='C10.lazy')
+add('c10-iferror-float-parser', 'C10', 'break', [(LOGIC, """FUNCTIONS['IFERROR'] = {
+    'function': wrap_ufunc(
+        xiferror, input_parser=lambda *a: a, check_error=lambda *a: False
+    ),""", """FUNCTIONS['IFERROR'] = {
+    'function': wrap_ufunc(
+        xiferror, check_error=lambda *a: False
+    ),""")], expect='C10.lazy')
+add('c10-err-circular-plain-string', 'C10', 'break', [(EXCEL, """ERR_CIRCULAR = XlCircular('#CIRC!')""", """ERR_CIRCULAR = '#CIRC!'""")], expect='C10.err')
+add('c10-skip-nodes-not-passed', 'C10', 'break', [(EXCEL, """        cycles = list(simple_cycles(dmap.succ, skip_nodes=skip_nodes))""", """        cycles = list(simple_cycles(dmap.succ))""")], expect='C10.skip')
+add('c10-check-cycles-no-skip', 'C10', 'break', [(CELL, """        dmap = {
+            v: set(nbrs) - skip_nodes
+            for v, nbrs in fn.dsp.dmap.succ.items()
+            if v not in skip_nodes
+        }""", """        dmap = {
+            v: set(nbrs) for v, nbrs in fn.dsp.dmap.succ.items()
+        }""")], expect='C10.skip')
+add('c10-cut-node-unsorted', 'C10', 'break', [(EXCEL, """            for k in sorted(cycle.intersection(f_nodes)):
+                if _check_cycles(""", """            for k in cycle.intersection(f_nodes):
+                if _check_cycles(""")], expect='C10.ord')
+add('c10-first-cuttable-node-returned', 'C10', 'break', [(CELL, """                if k in n and n[k](*(i in c for i in n['inputs'])):
+                    cells.update(c.intersection(inputs))
+                    break""", """                if k in n and n[k](*(i in c for i in n['inputs'])):
+                    cells.update(set(n['inputs']).intersection(inputs))
+                    break""")], expect='C10.ord')
+add('c10-benign-guard-def-rewritten', 'C10', 'benign', [(LOGIC, """def solve_cycle(*args):
+    return not args[0]""", """def solve_cycle(*args):
+    on_cycle = args[0]
+    return not on_cycle""")], may_error=True)
+add('c10-benign-ifs-all-not', 'C10', 'benign', [(LOGIC, """    'solve_cycle': lambda *a: not any(a[::2])""", """    'solve_cycle': lambda *a: all(not v for v in a[::2])""")])
+add('c10-benign-sorted-list', 'C10', 'benign', [(EXCEL, """            for k in sorted(cycle.intersection(f_nodes)):
+                if _check_cycles(""", """            for k in sorted(list(cycle.intersection(f_nodes))):
+                if _check_cycles(""")])
+
+# ---------------------------------------------------------------- C14
+add('c14-builder-drops-notimplemented', 'C14', 'break', [(BUILDER, """            raises=lambda e: not isinstance(e, (
+                NotImplementedError, RangeValueError, InvalidRangeError
+            ))""", """            raises=lambda e: not isinstance(e, (
+                RangeValueError, InvalidRangeError
+            ))""")], expect='C14.name')
+add('c14-not-implemented-raises-other', 'C14', 'break', [(F, """def not_implemented(*args, **kwargs):
+    raise NotImplementedError""", """def not_implemented(*args, **kwargs):
+    raise FunctionError()"""), (F, """    RangeValueError, FoundError, BaseError, BroadcastError, InvalidRangeError
+)""", """    RangeValueError, FoundError, BaseError, BroadcastError, InvalidRangeError,
+    FunctionError
+)""")], expect='C14.name')
+add('c14-cellwrapper-maps-to-na', 'C14', 'break', [(CELL, """            if isinstance(ex.ex, NotImplementedError):
+                return Error.errors['#NAME?']""", """            if isinstance(ex.ex, NotImplementedError):
+                return Error.errors['#N/A']""")], expect='C14.name')
+add('c14-cellwrapper-checks-keyerror', 'C14', 'break', [(CELL, """            if isinstance(ex.ex, NotImplementedError):""", """            if isinstance(ex.ex, KeyError):""")], expect='C14.name')
+add('c14-complete-narrow-except', 'C14', 'break', [(EXCEL, """            except Exception as ex:  # Missing excel file or sheet.""", """            except FileNotFoundError as ex:  # Missing excel file or sheet.""")], expect='C14.ref')
+add('c14-complete-reraises', 'C14', 'break', [(EXCEL, """                Cell(n_id, '=#REF!').compile().add(self.dsp)
+                self.books.pop(book, None)
+                continue""", """                self.books.pop(book, None)
+                raise""")], expect='C14.ref')
+add('c14-add-sheet-outside-try', 'C14', 'break', [(EXCEL, """            try:
+                context = self.add_book(book)[1]
+                wk, context = self.add_sheet(rng['sheet'], context)
+            except Exception as ex:""", """            context = self.add_book(book)[1]
+            try:
+                wk, context = self.add_sheet(rng['sheet'], context)
+            except Exception as ex:""")], expect='C14.ref')
+add('c14-missing-name-not-ref', 'C14', 'break', [(EXCEL, """                log.warning('Missing Reference `{}`!'.format(n_id))
+                Ref(n_id, '=#REF!').compile().add(self.dsp)
+                continue""", """                log.warning('Missing Reference `{}`!'.format(n_id))
+                continue""")], expect='C14.ref')
+add('c14-missing-ref-unknown-code', 'C14', 'break', [(CELL, """            i = m and m.groupdict()['excel_id'] and '#NAME?' or '#REF!'""", """            i = m and m.groupdict()['excel_id'] and '#NAME?' or '#MISSING!'""")], expect='C14.ref')
+add('c14-functions-plain-dict', 'C14', 'break', [(F, """    functions = collections.defaultdict(lambda: not_implemented)""", """    functions = {}""")], expect='C14.table')
+add('c14-error-table-built-from-strings', 'C14', 'break', [('formulas/tokens/operand.py', """    errors = {str(k): k for k in (NULL, DIV, VALUE, REF, NUM, NAME, NA)}""", """    errors = {str(k): str(k) for k in (NULL, DIV, VALUE, REF, NUM, NAME, NA)}""")], expect='C14.plain')
+add('c14-benign-handler-var-renamed', 'C14', 'benign', [(EXCEL, """            except Exception as ex:  # Missing excel file or sheet.
+                log.warning('Error in loading `{}`:\n{}'.format(n_id, ex))""", """            except Exception as err:  # Missing excel file or sheet.
+                log.warning('Error in loading `{}`:\n{}'.format(n_id, err))""")])
+add('c14-benign-tolerate-more', 'C14', 'benign', [(BUILDER, """                NotImplementedError, RangeValueError, InvalidRangeError
+            ))""", """                NotImplementedError, RangeValueError, InvalidRangeError,
+                InvalidRangeName
+            ))""")])
+
 if __name__ == '__main__':
     here = os.path.dirname(os.path.abspath(__file__))
     ids = [v['id'] for v in V]
